@@ -27,6 +27,7 @@ type World struct {
 	solver   string
 	timeout  int
 	tier     string
+	maxCex   int
 }
 
 // packages whose functions are executed from SSA when no model is registered
@@ -254,6 +255,9 @@ func main() {
 	tier := flag.String("tier", "quick", "quick | thorough (visible to harnesses through verifTier)")
 	onePath := flag.String("path", "", "run a single path given as comma-separated decisions (debug)")
 	smtlog := flag.String("smtlog", "", "log solver input of -path run to this file")
+	flag.StringVar(&cexDir, "cexdir", "", "write counterexample files here")
+	maxCex := flag.Int("maxcex", 3, "counterexample files per harness")
+	known := flag.String("known", "", "known-finding modes: id=exclude|only, comma separated")
 	flag.Parse()
 
 	t0 := time.Now()
@@ -291,7 +295,12 @@ func main() {
 		os.Exit(2)
 	}
 	prog, spkgs := ssautil.AllPackages(pkgs, ssa.InstantiateGenerics)
-	w := &World{prog: prog, follow: followPrefixes, maxSteps: 3000000, solver: *solver, timeout: *timeout, tier: *tier}
+	w := &World{prog: prog, follow: followPrefixes, maxSteps: 3000000, solver: *solver, timeout: *timeout, tier: *tier, maxCex: *maxCex}
+	for _, kv := range strings.Split(*known, ",") {
+		if i := strings.Index(kv, "="); i > 0 {
+			knownModes[kv[:i]] = kv[i+1:]
+		}
+	}
 	for _, p := range spkgs {
 		if p != nil && strings.HasPrefix(p.Pkg.Path(), "github.com/initia-labs/OPinit") {
 			p.Build()
